@@ -17,6 +17,15 @@ FLOORS = {
               "cases_with_pruned_start": 100, "ignore_twins": 100},
     "thorough": {"distinct_nontrivial": 3000, "prefix_scores_compared": 300000},
 }
+ANCHORS = [
+    "skchange.anomaly_detectors.mvcapa.run_base_capa",
+    "skchange.anomaly_detectors.mvcapa.penalise_savings",
+    "skchange.anomaly_detectors.mvcapa.optimise_savings",
+    "skchange.anomaly_detectors.mvcapa.get_anomalies",
+    "skchange.anomaly_detectors.mvcapa.run_mvcapa",
+    "skchange.anomaly_detectors.capa.run_capa",
+    "skchange.anomaly_detectors.capa.CAPA._get_penalty_components",
+]
 LEVEL = "exploration"
 RULE = (
     "case = CAPA or MVCAPA configuration from the zoo (savings: L2Saving, Saving(L2Cost(0)), "
